@@ -11,8 +11,7 @@ import (
 // type, LOCKT must agree with the reference model.
 func (w *world) probeLocks(f failer) {
 	w.poke()
-	w.inspect40()
-	w.inspect41()
+	w.refreshNames()
 	for _, c := range sortedClients40(w) {
 		c.sync(f)
 	}
@@ -96,6 +95,12 @@ func l41open(cl, owner, file string, access uint32, how openHow, claim claim41) 
 		do: func(w *world, f failer) { w.client41(cl).open(f, owner, file, access, how, claim) }}
 }
 
+func l41openIOClose(cl, owner, file string, access uint32) letter {
+	return letter{name: fmt.Sprintf("41 OPEN+IO+CLOSE %s %s %s %s current-stateid", cl, owner, file, accessNames[access]),
+		enabled: func(w *world) bool { return has41(w, cl) },
+		do:      func(w *world, f failer) { w.client41(cl).openIOClose(f, owner, file, access) }}
+}
+
 func l41close(cl, owner, file string) letter {
 	return letter{name: fmt.Sprintf("41 CLOSE %s %s %s", cl, owner, file),
 		enabled: func(w *world) bool { return usable41(w, cl, owner, file) },
@@ -118,7 +123,9 @@ func l41lock(cl, owner, file, lowner string, r lockRange, shared, viaOpen bool) 
 	}
 	return letter{name: fmt.Sprintf("41 LOCK %s %s %s %s %s %s%s", cl, owner, file, lowner, r.name, map[bool]string{true: "shared", false: "excl"}[shared], via),
 		enabled: func(w *world) bool { return usable41(w, cl, owner, file) },
-		do:      func(w *world, f failer) { w.client41(cl).lock(f, open41of(w, cl, owner, file), lowner, r, shared, viaOpen) }}
+		do: func(w *world, f failer) {
+			w.client41(cl).lock(f, open41of(w, cl, owner, file), lowner, r, shared, viaOpen)
+		}}
 }
 
 func lockUsable41(w *world, cl, owner, file, lowner string) bool {
@@ -231,7 +238,7 @@ func prefix41Open(cl, owner, file string, access uint32) func(w *world, f failer
 func seqs41() []*mc.Seq {
 	var out []*mc.Seq
 
-	out = append(out, makeSeq("v41-registration", []string{"C18", "C19"}, map[string]int{"quick": 5, "thorough": 7}, nil, []letter{
+	out = append(out, makeSeq("v41-registration", []string{"C18", "C19"}, map[string]int{"quick": 5, "thorough": 6}, nil, []letter{
 		l41exchange("d1", 1), l41exchange("d1", 2), l41createSession("d1"),
 		l41open("d1", "O1", "a", accBoth, howNoCreate, claimNull),
 		l41lock("d1", "O1", "a", "L1", rangeB0, false, false),
@@ -240,7 +247,7 @@ func seqs41() []*mc.Seq {
 		lAdvance(halfLease, "lease/2"), lAdvance(pastLease, "lease+1"),
 	}))
 
-	out = append(out, makeSeq("v41-share", []string{"C18", "C19"}, map[string]int{"quick": 4, "thorough": 6}, prefix41Session("d1"), []letter{
+	out = append(out, makeSeq("v41-share", []string{"C18", "C19"}, map[string]int{"quick": 4, "thorough": 5}, prefix41Session("d1"), []letter{
 		l41open("d1", "O1", "a", accRead, howNoCreate, claimNull), l41open("d1", "O1", "a", accWrite, howNoCreate, claimFH), l41open("d1", "O1", "a", accBoth, howNoCreate, claimPrevious),
 		l41open("d1", "O2", "a", accBoth, howUnchecked, claimNull), l41open("d1", "O1", "a", accRead, howGuarded, claimNull),
 		l41downgrade("d1", "O1", "a", accRead), l41downgrade("d1", "O1", "a", accWrite),
@@ -249,6 +256,7 @@ func seqs41() []*mc.Seq {
 		l41io(ioRead, "d1", "O1", "a", sidOpen, ""), l41io(ioWrite, "d1", "O1", "a", sidOpen, ""), l41io(ioWrite, "d1", "O1", "a", sidLock, "L1"),
 		l41io(ioRead, "d1", "O1", "a", sidAnonymous, ""), l41io(ioSetattr, "d1", "O1", "a", sidOpen, ""),
 		l41test("d1"),
+		l41openIOClose("d1", "O1", "a", accBoth), l41openIOClose("d1", "O2", "a", accRead),
 		lRemove("a"),
 		lAdvance(pastLease, "lease+1"),
 	}))
@@ -273,13 +281,13 @@ func seqs41() []*mc.Seq {
 		l41close("d1", "O1", "a"),
 		lAdvance(pastLease, "lease+1"),
 	)
-	out = append(out, makeSeq("v41-locks", all3, map[string]int{"quick": 3, "thorough": 5}, locksPrefix, lockLetters))
+	out = append(out, makeSeq("v41-locks", []string{"C18", "C20"}, map[string]int{"quick": 3, "thorough": 4}, locksPrefix, lockLetters))
 
 	// One lock-owner across two files and two open-owners of one client.
-	out = append(out, makeSeq("v41-locks-two-files", all3, map[string]int{"quick": 4, "thorough": 6},
+	out = append(out, makeSeq("v41-locks-two-files", all3, map[string]int{"quick": 4, "thorough": 5},
 		chain(prefix41Open("d1", "O1", "a", accBoth), prefix41Open("d1", "O1", "b", accBoth), prefix41Open("d1", "O2", "a", accBoth)), []letter{
 			l41lock("d1", "O1", "a", "L1", rangeB0, false, false), l41lock("d1", "O1", "b", "L1", rangeB0, true, false),
-			l41lock("d1", "O2", "a", "L1", rangeB01, false, false), l41lock("d1", "O1", "a", "L2", rangeB1, true, false),
+			l41lock("d1", "O2", "a", "L3", rangeB01, true, false), l41lock("d1", "O1", "a", "L2", rangeB1, true, false),
 			l41locku("d1", "O1", "a", "L1", rangeAll), l41locku("d1", "O1", "b", "L1", rangeB0),
 			l41lockt("d1", "a", "L1", rangeB01, false), l41lockt("d1", "b", "L2", rangeB0, false),
 			l41free("d1", "O1", "a", "L1"), l41free("d1", "O1", "b", "L1"),
@@ -288,9 +296,24 @@ func seqs41() []*mc.Seq {
 			l41io(ioWrite, "d1", "O1", "a", sidLock, "L1"),
 		}))
 
+	// One lock-owner locking one file through the opens of two different
+	// open-owners. The servers keep one lock count per (open, lock-owner)
+	// pair, but one lock table per (file, lock-owner): the counts go wrong
+	// (panics "Negative lock count" / "Failed to release locks", locks
+	// surviving CLOSE). All symptoms are reported under one fingerprint;
+	// the other scenarios keep every lock-owner on one open per file.
+	out = append(out, makeSeqFP("v4x-lock-owner-through-two-opens", []string{"C20"}, map[string]int{"quick": 3, "thorough": 4},
+		chain(prefix41Open("d1", "O1", "a", accBoth), prefix41Open("d1", "O2", "a", accBoth),
+			prefix40Open("c1", "O1", "b", accBoth), prefix40Open("c1", "O2", "b", accBoth)), []letter{
+			l41lock("d1", "O1", "a", "L1", rangeB0, false, false), l41lock("d1", "O2", "a", "L1", rangeB01, false, false),
+			l41locku("d1", "O1", "a", "L1", rangeAll), l41close("d1", "O2", "a"), l41close("d1", "O1", "a"),
+			l40lock("c1", "O1", "b", "L1", rangeB0, false), l40lock("c1", "O2", "b", "L1", rangeB01, false),
+			l40locku("c1", "O1", "b", "L1", rangeAll), l40close("c1", "O2", "b"), l40close("c1", "O1", "b"),
+		}, "lock-owner-through-two-opens"))
+
 	// NFSv4.0 and NFSv4.1 clients share the opened files pool: their
 	// locks exclude each other.
-	out = append(out, makeSeq("v40-v41-locks", []string{"C20", "C18"}, map[string]int{"quick": 4, "thorough": 6},
+	out = append(out, makeSeq("v40-v41-locks", []string{"C20", "C18"}, map[string]int{"quick": 4, "thorough": 5},
 		chain(prefix40Open("c1", "O1", "a", accBoth), prefix41Open("d1", "O1", "a", accBoth)), []letter{
 			l40lock("c1", "O1", "a", "L1", rangeB0, false), l40lock("c1", "O1", "a", "L1", rangeTail, true),
 			l41lock("d1", "O1", "a", "L1", rangeB01, true, false), l41lock("d1", "O1", "a", "L1", rangeAll, false, false),
